@@ -38,6 +38,28 @@ let mk_frame maxin =
                                    (if int_of_n cap <= int_of_n f_scratch then "S" else "H") in
           ((ret, String.concat "" (List.map (fun m -> show_msg [m]) outs), obs ^ "/" ^ b01 r'.fr_err), pipe')) }
 
+(* the C mini gateway (Gw/MiniModel.v) against the C++ binary gateway: MC = mini sends, CM = mini receives *)
+let mk_mini_sends maxin =
+  let f = mk_frame maxin in
+  let s = ref ms_init in
+  { f with
+    q = (fun a -> s := ms_queue !s (bytes_of_hex a));
+    o = (fun maxb scr ->
+          let (s', w) = mg_do_output !s maxb scr in
+          s := s';
+          (w, Printf.sprintf "%d/%d" (List.length s'.mg_bufs) (int_of_n s'.mg_off))) }
+let mk_mini_receives () =
+  let f = mk_frame (n_of_int 4294967295) in
+  let r = ref mr_init in
+  { f with
+    i = (fun maxb scr pipe ->
+          let (((r', outs), pipe'), err) = mg_in scr !r maxb pipe in
+          r := r';
+          let consumed = List.length pipe - List.length pipe' in
+          let ret = if err then "E" else string_of_int consumed in
+          ((ret, String.concat "" (List.map (fun m -> show_msg [m]) outs),
+            Printf.sprintf "%d/%d/%d" (List.length r'.mr_got) (int_of_n r'.mr_max) (int_of_n r'.mr_size)), pipe')) }
+
 (* zlib encodings: deflate/inflate are Section variables of the Coq model; here they are instantiated by
    the table the generator computed with the same libz (python zlib, Z_SYNC_FLUSH per Message, one stream
    per gateway): stream state = number of Messages deflated / inflated so far. *)
@@ -194,13 +216,15 @@ let () =
       let body = String.sub line (p+1) (String.length line - p - 1) in
       let nth l i d = match List.nth_opt l i with Some x -> x | None -> d in
       let h0 = List.hd head in
-      if h0.[0] = 'K' || h0.[0] = 'X' || (h0 = "WC" && List.length head < 2) || h0 = "MC" || h0 = "CM" || h0 = "UC" || h0 = "CU"
+      if h0.[0] = 'K' || h0.[0] = 'X' || (h0 = "WC" && List.length head < 2) || h0 = "UC" || h0 = "CU"
          || (h0 = "P" && List.length head < 5) then
         Printf.printf "%d oracle-only\n" k   (* not modelled: the harness evaluates the end-to-end oracle only *)
       else
       let m = match List.hd head with
         | "WC" -> mk_ws ~keys:(List.map bytes_of_hex (String.split_on_char ',' (nth head 1 ""))) true (n_of_int 4294967295)
         | "WS" -> mk_ws false (n_of_int 4294967295)
+        | "MC" -> mk_mini_sends (n_of_int 4294967295)
+        | "CM" -> mk_mini_receives ()
         | "WR" -> mk_ws true (n_of_int 4294967295)
         | "P" ->
             (* P:0:<maxin>:<maxcache>:<table>, table entries "triv/what/tid/tsize/tflathex/shape" in q order; the flat
